@@ -19,9 +19,9 @@ import (
 func init() {
 	Register(&Check{
 		Spec: core.Spec{ID: "C07", Level: "exploration",
-			Rule:        "case = one started engine whose DataStore/MetaStore wrapper holds a chosen flush-path call (k-th CreateFile/Write/Close/Update) at a gate while 1-3 clients keep issuing non-empty, empty and flush-triggering batches and Flush calls, so Flush lands with 0, 1 or 2 flushes queued or in flight and with empty or non-empty buffers; then the gate opens. Answers are never consumed during the run: a monitor polls len() of the buffered done channels, so 'B answered while an earlier-accepted non-empty A is not' is a monotone state it cannot misread. At every Flush return (nil) all batches accepted before the call must be answered and those answered nil visible to a query. Every fifth case is a late-receiver history instead: the earlier batch has an unbuffered done channel whose receiver only starts once it has seen a later subject answered (or 250 ms), and an explicit Flush, a limit-triggering later batch or a time-triggered flush follows; a later subject answered while that receiver has not started is a violation. non-trivial = history in which at least one Flush was called while a flush was held at the gate; distinct = distinct (gate position, client script, schedule signature)",
+			Rule:        "case = one started engine whose DataStore/MetaStore wrapper holds a chosen flush-path call (k-th CreateFile/Write/Close/Update) at a gate while 1-3 clients keep issuing non-empty, empty and flush-triggering batches and Flush calls, so Flush lands with 0, 1 or 2 flushes queued or in flight and with empty or non-empty buffers; then the gate opens. Answers are never consumed during the run: a monitor polls len() of the buffered done channels, so 'B answered while an earlier-accepted non-empty A is not' is a monotone state it cannot misread. At every Flush return (nil) all batches accepted before the call must be answered and those answered nil visible to a query. In every third history each batch lives in one of 2-4 partitions and only a partition's own row limit (2-5) triggers flushes, so a later batch can fill its partition while an earlier one sits in another. Every fifth case is a late-receiver history instead: the earlier batch has an unbuffered done channel whose receiver only starts once it has seen a later subject answered (or 250 ms), and an explicit Flush, a limit-triggering later batch or a time-triggered flush follows; a later subject answered while that receiver has not started is a violation. non-trivial = history in which at least one Flush was called while a flush was held at the gate; distinct = distinct (gate position, client script, schedule signature)",
 			Assumptions: []string{"'accepted earlier' = IngestRows returned before the later call started (logical clock); concurrent calls impose no order", "subjects are non-empty batches and Flush (empty batches are acknowledged on acceptance, pinned by TestEmptyIngestAcksImmediately)"},
-			Floors:      map[string]int64{"histories": 50, "flush_calls_while_gated": 50, "order_checks": 2000, "visibility_queries": 60, "late_receiver_histories": 15}},
+			Floors:      map[string]int64{"histories": 50, "flush_calls_while_gated": 50, "order_checks": 2000, "visibility_queries": 60, "late_receiver_histories": 15, "histories_one_partition_per_batch": 20}},
 		Cases:       func(t string) int { return nQueries(t, 120, 4000) },
 		Run:         runC07,
 		RaceMatters: true,
@@ -171,14 +171,28 @@ func runC07(rc *RunCtx, i int) {
 	}
 	r := rc.CaseRand(i)
 	maxBuf := core.Pick(r, []time.Duration{40 * time.Millisecond, time.Hour, time.Hour})
+	// every third history: each batch lives in one partition of a handful (key "pk" set by the
+	// harness), and only a partition's own row limit triggers flushes, so that a later batch
+	// can fill its partition while an earlier batch sits in another one
+	onePart := i%3 == 1
 	env, err := newLifecycleEnv(rc, i, r, func(s *gen.EngineSpec) {
 		s.BufRows = core.Pick(r, []int{2, 4, 8, 1000})
 		s.IngestBuf = core.Pick(r, []int{2, 8, 100})
+		if onePart {
+			s.Part = gen.PartByKey("pk")
+			s.Partition = s.Part.Name
+			s.BufRows, s.BufBytes, s.RGBytes = 1000, 1<<20, 10<<20
+			s.RGRows = core.Pick(r, []int{2, 3, 5})
+		}
 	})
 	if err != nil {
 		rc.Violate(i, "scenario-failed", "", err.Error(), nil)
 		return
 	}
+	if onePart {
+		rc.Res.Count("histories_one_partition_per_batch", 1)
+	}
+	pks := []string{"x", "y", "z", "w"}[:r.Range(2, 4)]
 	cfg := env.spec.Config()
 	cfg.MaxBufferedTime = maxBuf
 	e, err := bs.NewBloomSearchEngine(cfg, env.w.IMeta, env.w.IData)
@@ -366,6 +380,15 @@ func runC07(rc *RunCtx, i int) {
 					if !b.empty {
 						rowMu.Lock()
 						rows, b.recs = makeBatch(rowRand, env.w, "normal")
+						if onePart {
+							if len(rows) > 3 {
+								rows, b.recs = rows[:3], b.recs[:3]
+							}
+							pk := core.Pick(rowRand, pks)
+							for _, row := range rows {
+								row["pk"] = pk
+							}
+						}
 						rowMu.Unlock()
 					} else {
 						rows = []map[string]any{}
